@@ -102,7 +102,14 @@ def universe(model_name, ids, quick=True):
         put_values[v] = [torch.tensor(d, dtype=val.dtype) for d in POP_DELTAS]
         coords = list(itertools.product(*[range(s) for s in val.shape]))
         put_indices[v] = [list(coords[0]), list(coords[-1])] if len(coords) > 1 else [list(coords[0])]
-    u = statemc.Universe(dag, {}, put_values, n_ind, put_indices=put_indices, base=base)
+    # a whole-variable replacement proposal held in ANOTHER floating dtype than the state's value
+    # (the State API accepts it; joint / mixture states hold tau and xi in float64, the others in float32)
+    settable = {}
+    for v in ind:
+        other = torch.float32 if base[v].dtype == torch.float64 else torch.float64
+        d = torch.linspace(0.123456789, -0.0987654321, base[v].numel(), dtype=torch.float64).reshape(base[v].shape)
+        settable[v] = [(base[v].to(torch.float64) * 1.000001 + d).to(other)]
+    u = statemc.Universe(dag, settable, put_values, n_ind, put_indices=put_indices, base=base)
     u.pop_vars, u.ind_vars = pop, ind
     return u
 
@@ -211,6 +218,8 @@ def _proposal_class(u, v, hist):
     """'finite' / 'extreme' / 'non-finite' class of the last proposal on v in the history (for signatures)."""
     cls = "finite"
     for op in hist:
+        if op[0] == "set":
+            cls = "finite proposal in another dtype"
         if op[0] == "put":
             val = u.put_values[op[1]][op[2]]
             if not bool(torch.isfinite(val).all()):
@@ -230,6 +239,78 @@ def classify(u, v, op, why, st=None, hist=(), node=None):
         kind = "revert(subset)"
     why = re.sub(r"'[^']*'", "<var>", why.split(":")[0])
     return f"State.{kind}|{why}|{'individual' if v in u.ind_vars else 'population'} variable, {_proposal_class(u, v, hist)}"
+
+
+# ------------------------------------------------------------------------------------------
+# Driver A': proposals held in another floating dtype than the state's value
+
+def explore_dtype(u, acc, case_base):
+    """A replacement proposal in another dtype (float32 on a float64-held variable or the converse), reads allowed
+    by the contract, then every per-individual mask and the full revert.  The from-scratch oracle does not apply
+    (rows computed before and after the proposal legitimately carry different precisions); the oracle is the
+    property's own wording: rejected rows are exactly what they were before the proposal, accepted rows exactly
+    what was read after it (compared in float64, into which both dtypes embed exactly)."""
+    from leaspy.utils.weighted_tensor import WeightedTensor
+
+    def f64(x):
+        if x is None:
+            return None
+        x = x.weighted_value if isinstance(x, WeightedTensor) else x
+        return x.to(torch.float64)
+
+    masks = [[(m >> i) & 1 for i in range(u.n_ind)] for m in range(2 ** u.n_ind)]
+    for v in u.ind_vars:
+        reads = [x for x in ("nll_attach_ind", f"nll_regul_{v}_ind", "model", "rt") if x in u.dag.variables]
+        for warm, between in ((False, False), (False, True), (True, False), (True, True)):
+            if True:
+                st, ref = statemc.initial(u, "REF")
+                if warm:
+                    for x in reads:
+                        st[x]
+                before = {k: f64(val) for k, val in st._values.items()}
+                st[v] = u.settable[v][0].clone()
+                try:
+                    probe = statemc.copy_state(st)
+                    for x in reads:
+                        probe[x]
+                except Exception as e:
+                    # the definitions themselves refuse this dtype (e.g. float64 sources @ float32 mixing matrix)
+                    acc.outcome(f"dtype:{v}:definition refuses the dtype ({type(e).__name__})")
+                    break
+                if between:
+                    for x in reads:
+                        st[x]
+                proposed = {k: f64(val) for k, val in st._values.items()}
+                for mask in masks + [None]:
+                    s2 = statemc.copy_state(st)
+                    acc.evaluation()
+                    acc.transition()
+                    case = dict(case_base, driver="dtype", variable=v, warm=warm, between=between, mask=mask)
+                    try:
+                        s2.revert() if mask is None else s2.revert(torch.tensor(mask, dtype=torch.bool))
+                    except Exception as e:
+                        acc.violation(f"State.revert{'(subset)' if mask is not None else ''}|unexpected {type(e).__name__}|individual variable, proposal in another dtype", str(e), case)
+                        continue
+                    m = torch.ones(u.n_ind, dtype=torch.bool) if mask is None else torch.tensor(mask, dtype=torch.bool)
+                    acc.nontriv(repr((case_base, v, warm, between, mask)))
+                    acc.outcome(f"dtype:{'full' if mask is None else sum(mask)}")
+                    for k in (v,) + tuple(u.dag.sorted_children[v]):
+                        got = f64(s2._values[k])
+                        if got is None:
+                            continue
+                        b, pr = before[k], proposed[k]
+                        if mask is None:
+                            exp = b
+                        elif b is None or pr is None:
+                            exp = None
+                        else:
+                            exp = torch.where(m.reshape(m.shape + (1,) * (b.ndim - 1)), b, pr)
+                        if exp is None or got.shape != exp.shape or not same_value(got, exp):
+                            acc.violation(
+                                f"State.revert{'(subset)' if mask is not None else ''}|rejected rows differ from their value before the proposal (or accepted rows from the proposed one)|individual variable, proposal in another dtype",
+                                f"'{k}' after revert({mask}) of a {st._values[v].dtype} proposal on a {u.base[v].dtype} variable", case,
+                                expected=brief(exp), observed=brief(got))
+                            break
 
 
 # ------------------------------------------------------------------------------------------
@@ -264,7 +345,7 @@ def sampler_scripts(n_decisions, n_z_calls, thorough):
             yield ua, zd
 
 
-def run_sampler_case(u, kind, v, ua, zd, second=None, shuffle="identity"):
+def run_sampler_case(u, kind, v, ua, zd, second=None, shuffle="identity", std_scale=1.0):
     """One scripted `sample()` on variable v (then optionally one on `second`). Returns list of problems."""
     st, ref = statemc.initial(u, "REF")
     is_ind = v in u.ind_vars
@@ -272,6 +353,9 @@ def run_sampler_case(u, kind, v, ua, zd, second=None, shuffle="identity"):
     for step, (vv, knd) in enumerate([(v, kind)] + ([second] if second else [])):
         vis_ind = vv in u.ind_vars
         sampler = make_sampler(knd, st, vv, u.n_ind if vis_ind else None)
+        if step == 0 and std_scale != 1.0:
+            # a huge proposal scale (user-provided `scale`): the proposal's evaluation overflows / is non-finite
+            sampler.std = sampler.std * std_scale
         std_before = sampler.std.clone()
         dev = {}
         if vis_ind:
@@ -289,6 +373,11 @@ def run_sampler_case(u, kind, v, ua, zd, second=None, shuffle="identity"):
             try:
                 sampler.sample(st, temperature_inv=1.0)
             except Exception as e:
+                if std_scale != 1.0 and type(e).__name__ in ("ValueError", "LeaspyModelInputError", "LeaspyInputError"):
+                    # the observation / basis definitions themselves refuse non-finite inputs (torch validates the
+                    # Bernoulli probabilities, the orthonormal basis refuses infinite velocities): a refusal by a
+                    # definition is not a trace left by a rejection
+                    return [], ("definition refuses the proposal",)
                 return [(f"{knd} sample('{vv}') step {step}", f"raised {type(e).__name__}", str(e)[:300], None)], None
         accepted = sampler.acceptation_history[-1]
         # reconstruct the reference value from the environment log and the acceptance record
@@ -345,6 +434,19 @@ def explore_samplers(u, acc, thorough, case_base, model_name):
                         acc.evaluation()
                         acc.transition(2 if second else 1)
                         problems, pattern = run_sampler_case(u, kind, v, ua, zd, second, shuffle)
+                        if zd is None and second is None and shuffle == "identity" and set(ua) <= {1}:
+                            # same script with an overflowing proposal scale
+                            acc.evaluation()
+                            acc.transition()
+                            p2, pat2 = run_sampler_case(u, kind, v, ua, None, None, "identity", std_scale=1e32)
+                            acc.nontriv(repr((model_name, kind, v, pat2, "huge scale")))
+                            acc.outcome(f"sampler-huge-scale:{kind}:{pat2}")
+                            for where, why, got, exp in p2:
+                                import re
+
+                                acc.violation(
+                                    f"{'IndividualGibbsSampler' if is_ind else 'Population' + kind}.sample|{re.sub(chr(39) + '[^' + chr(39) + ']*' + chr(39), '<var>', why)}|overflowing proposal scale",
+                                    f"{where}: {why}", dict(case, std_scale=1e32), expected=exp, observed=got)
                         zcls = "default z" if zd is None else "extreme z"
                         acc.nontriv(repr((model_name, kind, v, pattern, zcls, second, shuffle)))
                         acc.outcome(f"sampler:{kind}:{pattern}")
@@ -378,6 +480,7 @@ def shards(tier, seed):
                 continue  # quick: population variables on the representative kinds only
             out.append({"model": name, "ids": ["a", "b"], "driver": "protocol", "tier": tier, "variable": v})
         out.append({"model": name, "ids": ["a", "b"], "driver": "sampler", "tier": tier})
+        out.append({"model": name, "ids": ["a", "b"] if tier == "quick" else ["a", "b", "c"], "driver": "dtype", "tier": tier})
     if tier == "thorough":
         for name in names:
             pop, ind = _latents_of(name)
@@ -395,6 +498,8 @@ def run_shard(shard):
     if shard["driver"] == "protocol":
         explore_protocol(u, shard["variable"], acc, follow_depth=3 if thorough else 1, quick=not thorough,
                          case_base=dict(base, driver="protocol"))
+    elif shard["driver"] == "dtype":
+        explore_dtype(u, acc, base)
     else:
         explore_samplers(u, acc, thorough, base, shard["model"])
     return acc.to_dict()
@@ -406,10 +511,15 @@ def replay(case):
     if case.get("driver") == "sampler":
         problems, pattern = run_sampler_case(u, case["kind"], case["variable"], tuple(case["u"]),
                                              tuple(case["z"]) if case["z"] else None,
-                                             tuple(case["second"]) if case["second"] else None, case["shuffle"])
+                                             tuple(case["second"]) if case["second"] else None, case["shuffle"],
+                                             std_scale=case.get("std_scale", 1.0))
         for where, why, got, exp in problems:
             out.append({"signature": f"sampler|{why}", "message": f"{where}: {why} got={got} expected={exp}"})
         return out
+    if case.get("driver") == "dtype":
+        acc = Acc()
+        explore_dtype(u, acc, {"model": case["model"], "ids": case["ids"]})
+        return [{"signature": v["signature"], "message": v["message"]} for v in acc.violations.values()]
     hist = [op for op in case["history"]]
     st, ref = statemc.initial(u, "REF")
     for i, op in enumerate(hist):
